@@ -55,7 +55,11 @@ func genC41(r *kit.Rand, tier kit.Tier) idCase {
 	}
 
 	for i := 0; i < n; i++ {
-		switch r.Intn(6) {
+		switch r.Intn(7) {
+		case 6:
+			// the counter is moved far ahead (timing.SetIDGeneratorNextID, what a restore
+			// of a long run does): beyond 2^53, or beyond 2^61
+			c.Ops = append(c.Ops, idOp{Kind: "jump", N: r.Intn(2)})
 		case 0:
 			c.Ops = append(c.Ops, idOp{Kind: "save"})
 		case 1:
@@ -85,12 +89,32 @@ func seqHistory(c idCase) ([]uint64, *kit.Violation) {
 
 	savedAt := -1
 
+	jumps, at := 0, uint64(0)
+
 	for k, op := range c.Ops {
 		switch op.Kind {
 		case "gen":
 			for i := 0; i < op.N; i++ {
 				ids = append(ids, timing.GetIDGenerator().Generate())
 			}
+		case "jump":
+			if jumps >= 6 {
+				continue // stay well below 2^64
+			}
+
+			jumps++
+			at += uint64(1)<<53 + 1
+
+			if op.N == 1 {
+				at += uint64(1) << 61
+			}
+
+			timing.GetIDGenerator()
+			timing.SetIDGeneratorNextID(at + uint64(len(ids)))
+
+			// the jump is the harness's act, not part of the generator's sequence: an
+			// earlier save point is not compared across it
+			saved, savedAt = nil, -1
 		case "save":
 			var b bytes.Buffer
 			if err := timing.GetIDGenerator().(ckpt).SaveCheckpoint(&b); err != nil {
@@ -186,6 +210,7 @@ func execC41(c idCase, env *kit.Env) kit.Outcome {
 
 	// concurrent callers under the scheduler
 	s := &sched.Sched{MaxSteps: 20000}
+	s.YieldOnUnlock = sched.UnlockYields(c.SchedSeed)
 	s.Choose = sched.ListChooser(c.Decisions, sched.MixedChooser(c.SchedSeed, s))
 
 	if c.Decisions != nil {
